@@ -17,7 +17,8 @@ for sid in sys.argv[1:]:
     sh("rm -rf %s && cp -a %s %s && grep -rlE '/tmp/seed-(c[0-9a-z]*-)?target' %s | xargs -r sed -i -E 's#/tmp/seed-(c[0-9a-z]*-)?target#/tmp/seed-target-confirm#g'" % (d, d0, d, d))
     # scratch directories the demos expect from the seed writer's session
     for m in set(__import__("re").findall(r"/tmp/seed-c[0-9a-z]*-out", sh("cat %s/demo.sh" % d).stdout)):
-        os.makedirs(m + "/scratch", exist_ok=True)
+        for sub in ("scratch", "1", "2", "3"):
+            os.makedirs(m + "/" + sub, exist_ok=True)
     head = sh("git -C /repo rev-parse HEAD").stdout.strip()
     sh("git -C %s checkout -- . ; git -C %s clean -fdq -e target; git -C %s checkout -q --detach %s" % (WT, WT, WT, head))
     sh("cp /repo/Cargo.lock %s/Cargo.lock" % WT)
